@@ -40,7 +40,7 @@ CHECKS = {
  "C15": ("exploration", "systematic enumeration of the prediction-format grid through the real SafeLearner with a scripted learner; oracle from the statement",
          "Every cell of the format x kwargs x batching x action-kind x size grid that the tier enumerates is executed.", "learner consistent in its format; hints where ambiguous", "3/C15"),
  "C16": ("exploration", "icontract ensure/invariant on the real learner classes over generated histories + step-bounded termination monitor",
-         "Held on the generated histories executed.", "rewards in [0,1] for Corral; T>1", "3/C16"),
+         "Held on the generated histories executed.", "rewards in [0,1] for Corral; T>1; logged probabilities in [1e-6,1] and, in one class of Corral histories, down to 1e-30 (open finding: the root search breaks down below 1e-11)", "3/C16"),
  "C17": ("exploration", "model-based history checker: real Table vs list-of-dicts scan model after every operation + icontract postconditions on Table.index/insert",
          "Held on the generated operation histories executed (counts in evidence).",
          "ordering comparisons on Missing cells checked differentially only; None-bearing columns never indexed", "3/C17"),
